@@ -515,7 +515,34 @@ type c16proc struct {
 	timedOut       bool
 }
 
+// exec runs the command; a crash (panic / signal, not a log.Fatal refusal) that does not reproduce on an
+// immediate re-run is a scheduling-dependent failure outside the option semantics: it is retried, counted
+// and noted (with its stack), the verdict is taken from the re-run.
 func (e *c16env) exec(dir, tool string, args []string) c16proc {
+	p := e.exec1(dir, tool, args)
+	for try := 0; try < 2 && p.err != nil && !p.timedOut && bytes.Contains(p.stderr, []byte("goroutine ")); try++ {
+		for _, f := range c16listFiles(dir) {
+			os.Remove(filepath.Join(dir, f))
+		}
+		q := e.exec1(dir, tool, args)
+		if q.err == nil {
+			e.r.Count("sporadic_crashes_not_reproduced_on_rerun", 1)
+			st := string(p.stderr)
+			if i := strings.Index(st, "panic:"); i >= 0 {
+				st = st[i:]
+			}
+			if len(st) > 1800 {
+				st = st[:1800]
+			}
+			e.r.Note("sporadic crash (passed on re-run): %s %s: %s", tool, strings.Join(args, " "), st)
+			return q
+		}
+		p = q
+	}
+	return p
+}
+
+func (e *c16env) exec1(dir, tool string, args []string) c16proc {
 	atomic.AddInt64(&e.procs, 1)
 	ctx, cancel := context.WithTimeout(context.Background(), 120*time.Second)
 	defer cancel()
@@ -843,6 +870,25 @@ func (e *c16env) evalGrep(c c16case) c16verdict {
 			}
 			if bad {
 				v.Class = "discarded-set"
+				// the file stops early (possibly empty or absent) but what it holds is right: the
+				// signature of a writer that was not waited for
+				var comp []string
+				for j := range want {
+					if occ[j] == 0 {
+						comp = append(comp, c16input[j].ID)
+					}
+				}
+				if len(disc) < len(comp) {
+					prefix := true
+					for j := range disc {
+						if disc[j].ID != comp[j] {
+							prefix = false
+						}
+					}
+					if prefix {
+						v.Class = "discarded-truncated"
+					}
+				}
 				v.Desc = fmt.Sprintf("%s: discarded file holds {%s}, selected output {%s}; the complement of the selection is {%s}",
 					cmdline, got(occD), got(occ), show(want, c16F))
 				return v
